@@ -31,6 +31,11 @@ func runValue(c *Case) Verdict {
 	var rerr, rerr2 error
 	kind, site, msg := guarded(10*time.Second, func() {
 		val := ToMal(want)
+		// the value is first DISPLAYED (str: the non-readable rendering), as a program showing it to its user
+		// would: what PRINT / pr-str produce afterwards must still read back
+		dq := types.List{Val: []types.MalType{types.Symbol{Val: "str"},
+			types.List{Val: []types.MalType{types.Symbol{Val: "quote"}, val}}}}
+		_, _ = lisp.EVAL(context.Background(), dq, ns)
 		printed = lisp.PRINT(val)
 		back, rerr = lisp.READ(printed, nil, ns)
 		q := types.List{Val: []types.MalType{types.Symbol{Val: "read-string"},
